@@ -230,7 +230,7 @@ def run(R):
     if os.path.exists(cp):
         run_items(R, [{"P": c["P"], "m": c["m"], "zero": c["zero"]} for c in map(json.loads, filter(str.strip, open(cp)))], "corpus")
     items = []
-    cnt = 4000 if R.thorough else 260
+    cnt = 4000 if R.thorough else 500
     for t in range(cnt):
         m = R.rng.choice([2, 2, 3, 3, 4, 5, 6, 8, 12])
         n = R.rng.choice([1, 2, 3, 4, 5, 7, 10, 20, 60])
